@@ -1088,7 +1088,7 @@ def _proto(which):
 
 BUILDERS = {"C18": c18_groups, "C19": c19_groups, "C14": c14_groups, "C20": c20_all, "C09": c20_groups,
             "C01": _proto({"mutators", "finish", "close"}), "C10": _proto({"mutators", "finish"}),
-            "C15": _proto({"finish", "close"}), "C16": _proto({"readonly"}), "C08": _proto({"drop_table"})}
+            "C15": _proto({"finish", "close"}), "C16": _proto({"readonly"}), "C08": _proto({"drop_table"}), "C04": _proto({"reject"})}
 
 
 def native_confirm_c18(vals, work):
